@@ -94,7 +94,24 @@ def gen_value(rng, name, now_t, guid):
                        "%s %s %s" % (SCHEME, guid, "0" * 64)])
 
 
-def gen_case(rng, now_t, key, tag):
+HOP_NAMES = ["Connection", "Keep-Alive", "TE", "Trailer", "Upgrade", "Proxy-Connection"]
+HOP_FILLERS = {"Connection": ["keep-alive", "Keep-Alive", "x-foo", "TE"], "Keep-Alive": ["timeout=5", "max=100"], "TE": ["trailers", "deflate;q=0.5"],
+               "Trailer": ["x-checksum", "expires"], "Upgrade": ["h2c", "websocket"], "Proxy-Connection": ["keep-alive"]}
+
+
+def gen_hop_headers(rng):
+    """hop-by-hop style client headers whose token lists NAME the proxy-owned headers (RFC 9110 7.6.1: a proxy that honoured them
+    after inserting its own headers would strip those again)"""
+    out = []
+    for name in rng.sample(HOP_NAMES, rng.choice([1, 1, 2, 3])):
+        toks = [rc.rand_case(rng, n) if rng.random() < 0.6 else n for n in rng.sample(list(OWNED), rng.randint(1, 3))]
+        toks += rng.sample(HOP_FILLERS[name], rng.randint(0, len(HOP_FILLERS[name])))
+        rng.shuffle(toks)
+        out.append((name if rng.random() < 0.5 else rc.rand_case(rng, name), rng.choice([", ", ",", " , "]).join(toks)))
+    return out
+
+
+def gen_case(rng, now_t, key, tag, hop=False):
     guid = key["guid"] if key else "11111111-2222-3333-4444-555555555555"
     method, target = rng.choice(EXEMPT_TARGETS) if rng.random() < 0.18 else rng.choice(TARGETS)
     headers = []
@@ -104,6 +121,8 @@ def gen_case(rng, now_t, key, tag):
             headers.append((spelled, gen_value(rng, name, now_t, guid)))
     for _ in range(rng.randint(0, 4)):
         headers.append(rng.choice(OTHER_HEADERS))
+    if hop:
+        headers += gen_hop_headers(rng)
     rng.shuffle(headers)
     headers.insert(rng.randint(0, len(headers)), ("x-tag", tag))
     who = rng.random()
@@ -116,8 +135,8 @@ def gen_case(rng, now_t, key, tag):
     body = b""
     if method in ("PUT", "POST"):
         body = rng.choice([b"", b"<log/>", b"{\"a\": 1}"])
-    return {"tag": tag, "method": method, "target": target, "headers": headers, "uid": uid, "is_admin": is_admin,
-            "dest": dest, "body": body, "key": key, "key_is_hex": bool(key) and re.fullmatch(r"([0-9a-fA-F]{2})*", key["key"]) is not None}
+    return {"tag": tag, "method": method, "target": target, "headers": headers, "uid": uid, "is_admin": is_admin, "hop": hop,
+            "after_close": False, "dest": dest, "body": body, "key": key, "key_is_hex": bool(key) and re.fullmatch(r"([0-9a-fA-F]{2})*", key["key"]) is not None}
 
 
 def gen_key(rng):
@@ -146,15 +165,28 @@ def run(ctx):
     cases, scenarios = [], []
     for s in range(n_scen):
         key = gen_key(rng)
-        conns = []
+        conns, replies = [], {}
         for i in range(per):
-            c = gen_case(rng, now_t, key, "t%d-%d" % (s, i))
-            c["scenario"] = s
+            c = gen_case(rng, now_t, key, "t%d-%d" % (s, i), hop=rng.random() < 0.2)
+            c["scenario"], c["conn"], c["req"] = s, i, 0
             cases.append(c)
-            conns.append(e2e.conn([case_request(c)], audit=e2e.audit(c["dest"], uid=c["uid"], is_admin=c["is_admin"])))
-        scenarios.append(e2e.scenario("c05-%d" % s, conns, key=key, env=None))
-    for sc in scenarios:
-        sc.pop("env", None)
+            reqs = [case_request(c)]
+            if rng.random() < 0.12:
+                # the host closes its side of the forwarding connection after answering; the client then sends ANOTHER request
+                # with spoofed owned headers on the same keep-alive connection (on the code as it is: 502/503, nothing relayed;
+                # a proxy that reconnects and resends must resend what it signed)
+                replies.setdefault(c["dest"], []).append({"match": "x-tag: %s\r\n" % c["tag"], "close": True})
+                c2 = gen_case(rng, now_t, key, "t%d-%d-b" % (s, i), hop=rng.random() < 0.2)
+                if rng.random() < 0.8:
+                    c2["method"], c2["target"] = rng.choice(TARGETS[:5])
+                    c2["body"] = b"" if c2["method"] == "GET" else c2["body"]
+                if not any(k.lower() == AUTH for k, _ in c2["headers"]):
+                    c2["headers"].append((rc.rand_case(rng, AUTH), gen_value(rng, AUTH, now_t, key["guid"] if key else "g")))
+                c2.update({"uid": c["uid"], "is_admin": c["is_admin"], "dest": c["dest"], "scenario": s, "conn": i, "req": 1, "after_close": True})
+                cases.append(c2)
+                reqs = [e2e.req(reqs[0], ops_after=[{"op": "sleep_ms", "ms": 40}]), case_request(c2)]
+            conns.append(e2e.conn(reqs, audit=e2e.audit(c["dest"], uid=c["uid"], is_admin=c["is_admin"])))
+        scenarios.append(e2e.scenario("c05-%d" % s, conns, key=key, replies=replies))
     results = e2e.run_scenarios(ctx, scenarios, timeout=900)
     ctx.log("e2e: %d scenarios, %d requests" % (len(scenarios), len(cases)))
 
@@ -171,11 +203,20 @@ def run(ctx):
                 if tags:
                     seen[tags[0]] = (host, m)
     exprs, eval_cases = [], []
+    not_relayed_after_close = [0]
     for c in cases:
         got = seen.get(c["tag"])
         replay = {"scenario": e2e.jsonable(scenarios[c["scenario"]]), "tag": c["tag"],
                   "how": "python3 -c 'import e2e' ; e2e.run_scenarios(ctx, [scenario]) and read upstream[dest]"}
         if got is None:
+            st = None
+            try:
+                st = results[c["scenario"]]["connections"][c["conn"]]["responses"][c["req"]].get("status")
+            except (IndexError, KeyError, TypeError):
+                pass
+            if c["after_close"] and st in (502, 503):
+                not_relayed_after_close[0] += 1       # the host had closed the forwarding connection: refused, nothing sent
+                continue
             disagreements.append({"case": replay, "model": "relayed", "impl": "the request did not reach %s; statuses %s" % (
                 c["dest"], e2e.statuses(results[c["scenario"]]))})
             continue
@@ -240,7 +281,9 @@ def run(ctx):
         "traces_validated_against_impl": len(model) - len(disagreements),
         "rule": "one relayed request per case: 0-3 client copies of each proxy-owned header name in random letter case with adversarial "
                 "values (spoofed isRoot claims, past/future/near dates, well-formed Azure-HMAC-SHA256 values with the latched key id), "
-                "0-4 other headers incl. repeated names and look-alike names, elevated / non-elevated attribution (is_admin in "
+                "0-4 other headers incl. repeated names and look-alike names, in a fifth of the cases Connection / Keep-Alive / TE / Trailer / "
+                "Upgrade / Proxy-Connection headers whose token lists name the owned headers, in an eighth a second spoofing request on "
+                "the same keep-alive connection after the host closed the forwarding connection, elevated / non-elevated attribution (is_admin in "
                 "{1,0,2,-1}), no key / hex key / undecodable key, signed and exempt targets incl. case variants; non-trivial = at "
                 "least one client copy of an owned name, distinct by (header list, caller, key state, exempt)",
         "exhaustive": False,
@@ -249,6 +292,9 @@ def run(ctx):
                      "host_received": eval_cases[i][0]["impl_headers"]} for i in range(min(3, len(eval_cases)))],
         "input_distribution": {"requests": len(cases), "scenarios": len(scenarios), "signed_by_model": signed_n,
                                "elevated": sum(1 for c in cases if c["is_admin"] == 1),
+                               "hop_by_hop_headers_naming_owned": sum(1 for c in cases if c["hop"]),
+                               "second_request_after_host_closed_upstream": sum(1 for c in cases if c["after_close"]),
+                               "of_which_refused_502_503_unrelayed": not_relayed_after_close[0],
                                "exempt_targets": sum(1 for c in cases if rc.is_exempt(c["method"], c["target"])),
                                "owned_header_multiplicities": dict(sorted(dist.items(), key=lambda kv: -kv[1])[:12])},
     })
